@@ -894,7 +894,7 @@ def describe(tier, seed):
             f"tolerance {TOL:g} relative to max(|reference|, natural scale of the operands); Inv: {TOL:g} x 10 x cond, skipped when cond > {COND_MAX:g}",
             "depth 2 applies the model to the implementation's verified depth-1 values (copied), so round-off does not accumulate; boolean / "
             "integer depth-1 results only receive reductions, reshapes and transposes; non-finite results are not expanded",
-            "a Field's documented value is its shape function at the Gauss points as a (1, nPg, 1) array (taken from Get_N_pg)",
+            "scalar Fields (dof_n = 1): the documented value is the shape function of the active node at the Gauss points as a (1, nPg, 1) array (taken from Get_N_pg)",
         ],
         "explanation": "the implementation's fast paths, rank alignment and result typing depend on (rank, shape, operand order, spelling); "
                        "the product of these small alphabets is enumerated completely",
